@@ -244,7 +244,15 @@ def check_options(ctx: Ctx):
                             ref_desc = desc
                         ctx.decide("R15.4", f, f.node, base, "the pipeline receives the same arrays and configuration whatever the logging/timing/result options are", desc == ref_desc, None if desc == ref_desc else {"got": repr(desc)[:200], "reference": repr(ref_desc)[:200]}, nontrivial=False)
                         want_time = call_flag if call_flag is not None else ctor_flag
-                        times = [v[0].attrs.get("computation_time") for v in out.value.values()] if isinstance(out.value, dict) else []
+                        def _first(v):
+                            if isinstance(v, (tuple, list)) and v:
+                                return v[0]
+                            if isinstance(v, Obj) and isinstance(v.attrs.get("_fields"), tuple) and v.attrs["_fields"]:
+                                return v.attrs.get(v.attrs["_fields"][0])
+                            return None
+
+                        firsts = [_first(v) for v in out.value.values()] if isinstance(out.value, dict) else []
+                        times = [v.attrs.get("computation_time") for v in firsts if isinstance(v, Obj)] if all(isinstance(v, Obj) for v in firsts) else []
                         ctx.decide("R15.2", f, f.node, base + ":timing", "group times are recorded exactly when the effective save_group_times flag is set", all((t is not None) == bool(want_time) for t in times) and bool(times), {"times": repr(times)[:80]}, nontrivial=False)
     if n < 40:
         ctx.undecided("R15.2.floor", None, None, "floor:R15.2", f"{n} option combinations evaluated")
@@ -878,6 +886,87 @@ def _is_keyed_memo(m, node) -> bool:
     return val_self <= key_self
 
 
+def _stale_derived_state(cnode) -> list:
+    """(method name, written attribute, stale attribute, statement) for a class body: an attribute the constructor
+    (or a method it calls) derives from other attributes of the object, and a later method that rewrites one of those
+    without recomputing the derived one"""
+    methods = {n.name: n for n in cnode.body if isinstance(n, (ast.FunctionDef, ast.AsyncFunctionDef))}
+
+    def selfname(fn):
+        a = fn.args.posonlyargs + fn.args.args
+        return a[0].arg if a else None
+
+    def self_calls(fn):
+        sn = selfname(fn)
+        return {c.func.attr for c in ast.walk(fn) if isinstance(c, ast.Call) and isinstance(c.func, ast.Attribute) and isinstance(c.func.value, ast.Name) and c.func.value.id == sn and c.func.attr in methods}
+
+    def closure(names):
+        seen, todo = set(), list(names)
+        while todo:
+            m = todo.pop()
+            if m in seen or m not in methods:
+                continue
+            seen.add(m)
+            todo += list(self_calls(methods[m]))
+        return seen
+
+    def writes(fn):
+        sn = selfname(fn)
+        out = []
+        for st in ast.walk(fn):
+            if isinstance(st, (ast.Assign, ast.AnnAssign)):
+                for t in st.targets if isinstance(st, ast.Assign) else [st.target]:
+                    if isinstance(t, ast.Attribute) and isinstance(t.value, ast.Name) and t.value.id == sn and getattr(st, "value", None) is not None:
+                        out.append((t.attr, st))
+        return out
+
+    if "__init__" not in methods:
+        return []
+    init_side = closure(["__init__"])
+    # derived attributes and what they are computed from, with the methods that compute them
+    dep, computed_in = {}, {}
+    for m in init_side:
+        fn = methods[m]
+        sn = selfname(fn)
+        for attr, st in writes(fn):
+            reads = {x.attr for x in ast.walk(st.value) if isinstance(x, ast.Attribute) and isinstance(x.value, ast.Name) and x.value.id == sn and isinstance(x.ctx, ast.Load) and x.attr != attr and x.attr not in methods}
+            if reads:
+                dep.setdefault(attr, set()).update(reads)
+                computed_in.setdefault(attr, set()).add(m)
+    out = []
+    for m, fn in methods.items():
+        if m in init_side:
+            continue
+        reach = closure([m])
+        written_here = {a for k in reach for a, _ in writes(methods[k])}
+        for attr, st in writes(fn):
+            for b, srcs in dep.items():
+                if attr in srcs and b not in written_here and not (computed_in[b] & reach):
+                    out.append((m, attr, b, st))
+    return out
+
+
+def check_derived_state(ctx: Ctx):
+    """R15.10: an attribute computed from other attributes when the object is built (bound argument sets, lookup
+    tables, ...) is recomputed by every method that later rewrites one of those attributes - otherwise what the
+    object does and what it saves (its settings) drift apart."""
+    prog = ctx.prog
+    probe = ast.parse("class A:\n    def __init__(self, x):\n        self._x = x\n        self._bind()\n    def _bind(self):\n        self._kw = {'x': self._x}\n    def set_x(self, x):\n        self._x = x\n        self._bind()\n    def old_set_x(self, x):\n        self._x = x\n")
+    got = [(m, a, b) for m, a, b, _ in _stale_derived_state(probe.body[0])]
+    if got != [("old_set_x", "_x", "_kw")]:
+        ctx.undecided("R15.10.floor", None, None, "floor:R15.10", f"the built-in example gives {got}: rule broken")
+        return
+    n = hits = 0
+    for c in sorted(prog.classes.values(), key=lambda c: c.qual):
+        n += 1
+        for m, attr, b, st in _stale_derived_state(c.node):
+            hits += 1
+            f = c.methods.get(m)
+            ctx.violated("R15.10", f, st, f"{c.qual}.{m}:self.{attr}->{b}", f"self.{b} is computed from self.{attr} when the object is built; this method rewrites self.{attr} without recomputing it (the object goes on using the old value while its settings show the new one)", {"stmt": norm(st)[:80]})
+    if hits == 0:
+        ctx.ok("R15.10", None, None, "package:derived-state", f"{n} classes scanned: every rewrite of an attribute recomputes what was derived from it", None, nontrivial=False)
+
+
 def check_state_writers(ctx: Ctx):
     prog = ctx.prog
     roots = [prog.cls("utils.config:SupportsConfig")]
@@ -1157,6 +1246,7 @@ def check(ctx: Ctx):
     _run_rule(ctx, "check_pools", check_pools)
     _run_rule(ctx, "R15.5", check_map_helpers)
     _run_rule(ctx, "check_state_writers", check_state_writers)
+    _run_rule(ctx, "R15.10", check_derived_state)
     _run_rule(ctx, "check_globals", check_globals)
     _run_rule(ctx, "check_state_through_callees", check_state_through_callees)
     _run_rule(ctx, "check_ctor_purity", check_ctor_purity)
